@@ -17,7 +17,7 @@ from . import common
 ID = "C10"
 NEEDS_MODEL = True
 LEVEL = "exploration"
-N = {"quick": 480, "thorough": 15000}         # specs
+N = {"quick": 640, "thorough": 15000}         # specs
 CLASSES = ["plain", "shape", "occupancy", "flatten", "affine", "cascade", "spacetime", "metrics",
            "occupancy2", "metrics", "occupancy", "double-flatten", "affine2d", "reread",
            "flatten-lookup", "rewrite"]
